@@ -182,3 +182,15 @@ func (lalr *LALR1) GenErrorCode() int {
 func (lalr *LALR1) GenAcceptCode() int {
 	return len(lalr.G.LR0.LR0Closure) + 200
 }
+
+// walk follows the goto transitions of the LR(0) automaton from state along syms.
+func (lalr *LALR1) walk(state int, syms []*symbol.Symbol) (int, bool) {
+	for _, sy := range syms {
+		gt := lalr.G.LR0.LR0Closure[state].FindItemClosure(sy)
+		if gt == nil {
+			return 0, false
+		}
+		state = gt.ItemCl
+	}
+	return state, true
+}
